@@ -70,6 +70,14 @@ PLAN = {
                 explanation='Result fits the new layout (size, both alignments), Err => nothing changed, in-place moves stay inside the old block and never overlap source and '
                             'destination, fresh blocks are disjoint from the old one; deallocate of a non-last block is a no-op. The Allocator glue (slice length, zeroed tail) and '
                             'byte preservation are bounded Kani harnesses.'),
+    'C16': dict(v=['vecpanic'], level='proof', k_quick=[], k_thorough=[],
+                technique='Verus callback-point contracts on the real truncate/extend_with bodies (what an unwind would restore); partial',
+                explanation='PARTIAL. Neither Verus nor Kani can execute an unwind. For the operations that protect themselves with the SetLenOnDrop guard (truncate, '
+                            'and through it clear/resize-shrink/dedup*; extend_with, i.e. resize-grow/extend_from_slice) every call into user code (element destructor, Clone) '
+                            'carries the precondition "the length the guard would restore if this call panicked covers only live slots"; it is discharged on the real bodies for '
+                            'all lengths. Operations guarded by other means (drain/drain_filter/retain/splice/IntoIter/String::retain, arena slice fills, Box) are NOT decided; '
+                            'String::retain and DrainFilter are known findings observed natively (F6).',
+                assumptions=['element values are abstracted to slot indices (rewrite R16); Vec::reserve is an assumed shim in this unit']),
     'C18': dict(v=VR, level='proof', k_quick=[], k_thorough=[],
                 technique='Verus: capacity postcondition of the constructor, chunk_capacity spec + fast-path completeness; growth policy by Kani; RawVec arithmetic by Verus',
                 explanation='try_with_min_align_and_capacity(c) is verified to return an arena whose current chunk has finger - data >= c; chunk_capacity returns finger - data and '
